@@ -125,7 +125,38 @@ def check_unfolded(ctx, P, path_ids, seg_table, U, update_ids, label):
             key = "unfolded-note-changed"
         ctx.violation(key, f"expected-only {missing}; unfolded-only {extra}", w)
         return
+    # ---- the copy of a segment stands under what was in force in the original segment: divisions, time and key
+    # signature, and the clef of the note's staff at every copied note (the previous segment of the path may have
+    # ended under other ones: after a jump back they have to be restated)
+    from vmon.refmodels import sigmaps
+    dP, dU = sigmaps.describe(P), sigmaps.describe(U)
+    for o, st, en in rows:
+        t0 = int(o.start.t)
+        ctx.check(4)
+        for what, fa, fb in (("divisions", sigmaps.div_at(dP, t0), sigmaps.div_at(dU, st)),
+                             ("time-signature", sigmaps.ts_at(dP, t0), sigmaps.ts_at(dU, st)),
+                             ("key-signature", sigmaps.ks_at(dP, t0), sigmaps.ks_at(dU, st)),
+                             ("clef", sigmaps.clef_at(dP, o.staff or 1, t0), sigmaps.clef_at(dU, o.staff or 1, st))):
+            if what == "divisions":
+                differs, amb = fa != fb, False
+            else:
+                differs, amb = fa[0][:2 if what == "time-signature" else None] != fb[0][:2 if what == "time-signature" else None], fa[1] or fb[1]
+                if what != "divisions" and (not dP[{"time-signature": "ts", "key-signature": "ks", "clef": "clefs"}[what]]):
+                    differs = False      # nothing declared in the original: defaults on both sides
+                if what == "time-signature" and dP["ts"] and t0 < dP["ts"][0][0]:
+                    amb = True           # before the first signature: what counts there is C10's business
+                if what == "key-signature" and dP["ks"] and t0 < dP["ks"][0][0]:
+                    amb = True
+                if what == "clef" and not any(c[1] == (o.staff or 1) and c[0] <= t0 for c in dP["clefs"]):
+                    amb = True
+            if amb:
+                ctx.ambiguous()
+            elif differs:
+                ctx.violation(f"copied-segment-under-other-{what}", f"note {o.id} of the original (t={t0}) stands under {fa}; its copy at {st} under {fb}", w)
+                return
     for k, v in got_other.items():
+        if k[0] in ("TimeSignature", "KeySignature", "Clef"):
+            continue                     # judged through what is in force at every copied note (above)
         if k[0] in JUMP_CLASSES:
             ctx.violation("jump-object-left-in-unfolded-part", f"{k[0]} at {k[1]} remains", w)
             return
